@@ -1711,8 +1711,9 @@ def bisim_check(tag, pairs, workers=10, timeout=3000):
     return res, res.tagged.get("BAD", []), res.tagged.get("BADMAP", []), {x["p"] for x in res.tagged.get("SEEN", [])}
 
 
-ATOM_TXT = {"a": "'a'", "b": "'b'", "K": "['a'-'c']", "_": "_"}
-ATOM_DBG = {"a": "Char('a')", "b": "Char('b')", "K": "CharSet(CharSet([Range('a', 'c')]))", "_": "Any"}
+ATOM_TXT = {"a": "'a'", "b": "'b'", "K": "['a'-'c']", "_": "_", "S": '"ab"', "D": "$", "B": "$$ascii_digit"}
+ATOM_DBG = {"a": "Char('a')", "b": "Char('b')", "K": "CharSet(CharSet([Range('a', 'c')]))", "_": "Any",
+            "S": 'String("ab")', "D": "EndOfInput", "B": 'Builtin(Builtin("ascii_digit"))'}
 
 
 def tree_dbg(t):
@@ -1748,6 +1749,12 @@ def check_C16(tier, seed):
     if not tlc.ok:
         raise ToolError("TLC found an error in Syntax.tla:\n" + str(tlc.error))
     cases = tlc.tagged.get("SYN", [])
+    # `$` directly followed by `$` is the start of a built-in (`$$name`) for the tokenizer: the
+    # grammar has no way to write end-of-input followed by `$...` without parentheses, so those
+    # token strings are not printings of the tree (and `$` is only meaningful at the tail anyway)
+    def dollar_clash(toks):
+        return any(a == "D" and b_ in ("D", "B") for a, b_ in zip(toks, toks[1:]))
+    cases = [c for c in cases if not dollar_clash(c["toks"])]
     rnd = random.Random(seed)
     if tier == "quick" and len(cases) > 12000:
         cases = rnd.sample(cases, 12000)
@@ -1760,6 +1767,8 @@ def check_C16(tier, seed):
     for j, c in enumerate(rnd.sample(big, min(len(big), 150 if tier == "quick" else 1500))):
         t = c["tree"]
         sub = t["a"]
+        if dollar_clash(sub_toks(sub)) or dollar_clash(with_var(t)):
+            continue
         sub_txt = toks_txt(sub_toks(sub))
         whole_with_var = toks_txt(with_var(t))
         base = 100000 + 10 * j
